@@ -142,6 +142,10 @@ func dumpRoot(p *Prog, name string) {
 	if os.Getenv("MASK") == "c06" {
 		x.Mask = effs(EIdxWLive, EPutCache, EPutPend, EFsWObj, EFsWSchema, EFsRmObj, ECfgW, ETblW, EOkSchema, EOkValid, EOkUniq)
 	}
+	if os.Getenv("MASK") == "dirty" {
+		x.Mask = effs(EDirty, EFsWSchema, EIdxWLive, ECallCommit)
+	}
+	x.Trace = os.Getenv("TRACE")
 	if os.Getenv("QUIET") != "" {
 		x.L = nopListener{}
 	}
